@@ -106,6 +106,13 @@ def streams(seed, tier):
             for lst in ([S("INTEGER.+")], [], [S("CODE.DUP"), S("BOOLEAN.NOT")]):
                 st = state(bind=BINDS[1], cfg=cfg(maxi=mx, mini=mn, maxf=fbits(1.0), minf=fbits(2.0)))
                 cases.append(case(n % 2, 2, n_draws, [st, lst, n, STEPS, [S(d) for d in EXEC_DENY]], tape(rng)))
+    for n in (200, 1000, 5000, 20000, 60000):            # far beyond the grid: a few draws each, validated by valid_gen, not executed
+        for lst in ([], [S("INTEGER.+")]):
+            cases.append(case(n % 2, 2, 3, [state(bind=BINDS[1], cfg=cfg(pnew=0.001)), lst, n, -1, []], tape(rng)))
+    for nm_ in ("EXEC.CMD", "NOOP", "CODE.NOOP", "EXEC.Y", "NAME.RAND", "INTEGER.RAND"):      # a one-element instruction list: every instruction leaf is that name
+        for n in (1, 2, 7, 30):
+            cases.append(case(n % 2, 2, n_draws // 2, [state(bind=BINDS[0], cfg=cfg(pnew=0.5)), [S(nm_)], n, -1, []], tape(rng)))
+            cases.append(case(n % 2, 3, n_draws // 2, [state(bind=BINDS[0], cfg=cfg(pnew=0.5)), [S(nm_)], n + 1, -1, []], tape(rng)))
     for nb in (21, 22):
         for n in (1, 3, 12):
             for p in (0.0, 0.5):
